@@ -111,6 +111,21 @@ def c13_cases(tier):
                         return "%s.%s declared `%s`%s (%s schema) has the type `%s`, the rule gives `%s`" % (sname, member, sdl, " with a default value" if member in ("w", "dflt") else "", ext, got, rust)
                 return None
             yield case, oracle_in
+    # a directive on the selection (`@skip`, `@include`, with a constant or a variable) is not part of the field's type: the rule applies unchanged
+    for (sdl, rust) in type_exprs(2):
+        for direc, var in (("@include(if: $c)", "($c: Boolean!)"), ("@skip(if: $c)", "($c: Boolean!)"), ("@include(if: true)", ""), ("@skip(if: false) @include(if: true)", "")):
+            case = {"schema": "type O { n: %s } type Query { f: %s o: O en: [E!]! } enum E { A }" % (sdl, sdl), "query": "query Q%s { f %s plain: f o { n %s } en %s }" % (var, direc, direc, direc), "options": {"mode": "cli"}}
+
+            def oracle_dir(res, rust=rust, sdl=sdl, direc=direc):
+                if res["exit"] != 0 or not res["out"] or not res["out"].get("ok"):
+                    return None
+                st = _structs(norm(res["out"]["tokens"]))
+                for (sname, member, want) in (("ResponseData", "f", rust), ("ResponseData", "plain", rust), ("QO", "n", rust), ("ResponseData", "en", "Vec<E>")):
+                    got = (st.get(sname) or {}).get(member, (None, None))[1]
+                    if got != want:
+                        return "%s.%s of type `%s` selected with `%s` is declared as `%s`, the rule gives `%s`" % (sname, member, sdl if member != "en" else "[E!]!", direc if member != "plain" else "no directive", got, want)
+                return None
+            yield case, oracle_dir
     # a field an object re-declares with a narrower type than the interface it implements: typed by the object's declaration
     for x in c03_narrowing_cases(tier):
         yield x
@@ -280,6 +295,25 @@ def c17_more_cases(tier):
         "interface A implements B { id: ID } interface B implements C { id: ID } interface C implements A { id: ID } type T implements A & B & C { id: ID } type Query { t: T a: A }",
         "interface Base { id: ID } interface Mid implements Base { id: ID } type Leaf implements Mid & Base { id: ID } type Query { leaf: Leaf base: Base }",
     ]
+    # ... and selections that REFINE such a type (type conditions are checked against the member / implementor sets), unions that list
+    # themselves or each other
+    refine = [
+        (cyc_schemas[0], "query Q { node { __typename id ... on User { name } } }"),
+        (cyc_schemas[0], "fragment F on User { name } query Q { node { __typename ...F } user { id ... on Node { id } ... on Entity { id } } }"),
+        (cyc_schemas[2], "query Q { a { __typename id ... on T { id } ... on B { id } } }"),
+        ("union U = U | A type A { n: Int } type Query { u: U a: A }", "query Q { u { __typename ... on A { n } } }"),
+        ("union U = U | A type A { n: Int } type Query { u: U a: A }", "fragment F on A { n } query Q { u { __typename ...F ... on U { __typename } } a { n ... on U { __typename } } }"),
+        ("union U = V union V = U | A type A { n: Int } type Query { u: U v: V }", "query Q { u { __typename ... on A { n } ... on V { __typename } } v { __typename ... on A { n } ... on U { __typename } } }"),
+        ("union U = U type Query { u: U }", "query Q { u { __typename } }"),
+    ]
+    for (cs, q) in refine:
+        def oracle_r(res, cs=cs, q=q):
+            if res.get("timeout"):
+                return "generation does not terminate on `%s` over the self-referential schema `%s`" % (q[:90], cs[:90])
+            if res["exit"] != 0:
+                return "the process died with exit status %s on `%s` over `%s`: %s" % (res["exit"], q[:90], cs[:80], (res["stderr"] or "").strip()[-120:])
+            return None
+        yield {"schema": cs, "query": q, "options": {"mode": "cli"}}, oracle_r
     for cs in cyc_schemas:
         root = re.search(r"type Query \{ (\w+):", cs).group(1)
         case = {"schema": cs, "query": "query Q { %s { id } }" % root, "options": {"mode": "cli"}}
@@ -341,6 +375,30 @@ def c11_cases(tier):
                     return "%s.%s does not keep the wire key `%s` under skip_serializing_none (attributes: %s)" % (sname, ident, key, attrs or "none")
         return None
     yield case, oracle_skip
+    # an alias IS the key on the wire, for a field of every kind of type (scalar, custom scalar, enum, list of enum, object, interface, union)
+    # and every spelling of the alias (keyword, camelCase, snake_case, SCREAMING): never the schema field's name
+    schema_al = ("scalar Date enum Status { ACTIVE RETIRED } interface Named { name: String } type Person implements Named { name: String } union Who = Person "
+                 "type Query { status: Status! statuses: [Status!] count: Int at: Date me: Person named: Named who: Who }")
+    kinds = {"status": "", "statuses": "", "count": "", "at": "", "me": " { name }", "named": " { __typename name }", "who": " { __typename }"}
+    spellings = [("type", "type_"), ("currentValue", "current_value"), ("earlier_one", "earlier_one"), ("LOUD", "loud"), ("Self", "self_")]
+    for fld, sub in kinds.items():
+        q_al = "query Q { %s }" % " ".join("%s: %s%s" % (al, fld, sub) for (al, _) in spellings)
+        case = {"schema": schema_al, "query": q_al, "options": {"mode": "cli"}}
+
+        def oracle_alias(res, fld=fld, q_al=q_al):
+            if res["exit"] != 0 or not res["out"] or not res["out"].get("ok"):
+                return "generation failed for aliased selections of `%s`: %s" % (fld, q_al)
+            rd = _structs(norm(res["out"]["tokens"])).get("ResponseData") or {}
+            for (al, ident) in spellings:
+                if ident not in rd:
+                    return "alias `%s: %s` has no member `%s` in ResponseData (members: %s)" % (al, fld, ident, sorted(rd))
+                attrs = rd[ident][0]
+                rn = re.search(r'rename="([^"]*)"', attrs)
+                key = rn.group(1) if rn else ident
+                if key != al:
+                    return "alias `%s: %s`: the member `%s` is read from the wire key `%s`, the alias is the key (attributes: %s)" % (al, fld, ident, key, attrs or "none")
+            return None
+        yield case, oracle_alias
     # the other name positions: enum values, variables, input-object members, @oneOf members, aliases - the identifier is escaped, the
     # string on the wire (serde rename / match arm literal) is the GraphQL name itself
     kw2 = [k for k in kws if k not in ("true", "false")]
@@ -876,7 +934,11 @@ def _wire(t):
             v = re.sub(r"\(.*\)$", "", v)
             if v:
                 lits.append("tagged-variant:" + v)
-    return sorted(lits), len(re.findall(r"skip_serializing_if", t)), len(re.findall(r"deserialize_with", t)), len(re.findall(r"serde\(flatten\)", t))
+    # a unit struct serializes as `null`, a struct without members as `{}`: the shape of each struct definition is wire-relevant
+    unit_structs = len(re.findall(r"pubstruct[A-Za-z0-9_]+;", t))
+    empty_structs = len(re.findall(r"pubstruct[A-Za-z0-9_]+\{\}", t))
+    return (sorted(lits), len(re.findall(r"skip_serializing_if", t)), len(re.findall(r"deserialize_with", t)), len(re.findall(r"serde\(flatten\)", t)),
+            "unit structs: %d" % unit_structs, "member-less structs: %d" % empty_structs)
 
 
 def c09_cases(tier):
@@ -890,11 +952,14 @@ def c09_cases(tier):
     variants = [{"normalization": "rust"}, {"response_derives": "Debug,Clone,PartialEq"}, {"response_derives": "Serialize"}, {"response_derives": "Debug, serde::Serialize", "variables_derives": "Deserialize"}, {"response_derives": "Debug, Default"}, {"response_derives": "Default", "variables_derives": "Default"}, {"variables_derives": "Debug,Default"},
                 {"custom_scalars_module": "crate::scalars"}, {"serde_path": "my_serde"},
                 {"normalization": "rust", "response_derives": "Debug", "custom_scalars_module": "crate::s"}]
-    base_res = run_case({"schema": schema, "query": q, "options": base})
-    for v in variants:
+    # the same for an operation WITHOUT variables (its Variables type is a unit struct: `"variables": null`) and for one whose only variable is a list
+    queries = [q, "query ping { when }", "query Ping { obj { __typename name } }", "query by_ids($id: ID!) { kind(id: $id) }"]
+    variants = variants + [{"variables_derives": "Deserialize"}, {"variables_derives": "Debug, serde::Deserialize"}, {"variables_derives": "Clone,PartialEq,Deserialize", "response_derives": "Serialize"}]
+    for (q, v) in [(q_, v_) for q_ in queries for v_ in variants]:
+        base_res = run_case({"schema": schema, "query": q, "options": base})
         case = {"schema": schema, "query": q, "options": dict(base, **v)}
 
-        def oracle(res, v=v):
+        def oracle(res, v=v, base_res=base_res):
             if not base_res["out"] or not base_res["out"].get("ok"):
                 return None
             if res["exit"] != 0 or not res["out"] or not res["out"].get("ok"):
@@ -932,9 +997,13 @@ def c03_cases(tier):
               "type Plain implements Named { name: String } union Thing = HTTPEndpoint | rate_limit | Plain type Query { named: Named thing: Thing things: [Thing!] }")
     queries = [("query Q { thing { __typename ... on rate_limit { n } ... on HTTPEndpoint { url } } }", {"QThing": ["HTTPEndpoint", "rate_limit", "Plain"]}),
                ("query Q { named { __typename name ... on HTTPEndpoint { url } } things { __typename } }", {"QNamedOn": ["HTTPEndpoint", "rate_limit", "Plain"], "QThings": ["HTTPEndpoint", "rate_limit", "Plain"]})]
-    for (q, want) in queries:
+    # the same member types when the interface is implemented / the union joined through a type extension (stitched schema files)
+    schema_ext = ("interface Named { name: String } type HTTPEndpoint { url: String } extend type HTTPEndpoint implements Named { name: String } "
+                  "type rate_limit implements Named { name: String n: Int } type Plain { name: String } extend type Plain implements Named "
+                  "union Thing = HTTPEndpoint | rate_limit | Plain type Query { named: Named thing: Thing things: [Thing!] }")
+    for (q, want, sch) in [(q_, w_, schema) for (q_, w_) in queries] + [(q_, w_, schema_ext) for (q_, w_) in queries]:
         for opts in ({}, {"normalization": "rust"}, {"fragments_other_variant": True}, {"normalization": "rust", "fragments_other_variant": True}):
-            case = {"schema": schema, "query": q, "options": dict({"mode": "cli"}, **opts)}
+            case = {"schema": sch, "query": q, "options": dict({"mode": "cli"}, **opts)}
 
             def oracle(res, q=q, want=want, opts=opts):
                 if res["exit"] != 0 or not res["out"] or not res["out"].get("ok"):
@@ -1490,7 +1559,10 @@ def c20_witness(tier):
 
 
 def c15_cases(tier):
-    paths = [None, [], ["a"], ["a", 1, "b"], [0], ["a", ""], ["a/"], ["", "a"], [""], ["a", "b/"]]
+    paths = [None, [], ["a"], ["a", 1, "b"], [0], ["a", ""], ["a/"], ["", "a"], [""], ["a", "b/"],
+             # fragments that repeat (recursive selections), equal first and last, index equal to a key's digits, long paths
+             ["a", 0, "a"], ["hero", "friends", 0, "friends", 2, "hero", "name"], ["a", "a"], ["a", "a", "a"], [0, 0], [1, "1", 1], ["x", 1, "x", 1, "x"],
+             ["a", "b", "c", "d", "e", "f", "g", "h", 10, "i"], ["b", "a", "b"], ["", ""]]
     for pth in paths:
         for locs in (None, [], [[3, 4], [9, 9]]):
             case = {"kind": "error_display", "message": "m", "path": pth, "locations": locs}
@@ -1587,6 +1659,11 @@ def c12_all_cases(tier):
         # indirection, also the one inside the second fragment
         "fragment Beta on Link { label target { ...Alpha } } fragment Alpha on Item { value child { ...Alpha } link { ...Beta } } query Q { item { ...Alpha } }",
         "fragment Beta on Link { target { ...Alpha } } fragment Alpha on Item { child { ...Alpha } link { label ...Beta } } query Q { item { value ...Alpha } }",
+        # a non-recursive helper fragment spread more than once - in a sub-selection and again at the top, before / after the selections
+        # that lead back to the recursive fragment itself (never twice in ONE selection set: open known finding C02-duplicate-selection)
+        "fragment Info on Item { value } fragment R on Item { child { ...Info } ...Info child2: child { ...R } } query Q { item { ...R } }",
+        "fragment Info on Item { value } fragment R on Item { child2: child { ...R } child { ...Info } ...Info } query Q { item { ...R } }",
+        "fragment Info on Link { label } fragment V on Item { link { ...Info } l2: link { ...Info target { ...V } } } query Q { item { ...V } }",
     ]
     for q in queries:
         case = {"schema": schema, "query": q, "options": {"mode": "cli"}}
